@@ -293,7 +293,7 @@ func (c *Ctx) RuleUpd() []*Result {
 			})
 		}
 	}
-	return []*Result{validator, api, guard, found, version, c.RuleBuildVars(), c.RuleUpdArgs(), c.RuleChecksumName(), inPkg(c.RuleShadowParam(), 0, "internal/updater", "repository")}
+	return []*Result{validator, api, guard, found, version, c.RuleBuildVars(), c.RuleUpdArgs(), c.RuleChecksumName(), inPkg(c.RuleShadowParam(), 0, "internal/updater", "repository"), c.RuleRecvCopy()}
 }
 
 // configFields reads the fields of a struct literal passed by value.
